@@ -264,6 +264,7 @@ func checkC17(c *Check) {
 	}
 	c.Counts["transform_command_functions"] = len(cmdFns)
 	c.Counts["transform_command_dead_errors"] = deadErrors(c, "DEAD-ERROR", cmdFns)
+	c17RowOnAllPaths(c)
 	c10Appends(c, repoMod+"/pkg/arrai/relmod", "RETAINED-APPEND")
 	var ns []*ssa.Function
 	if f := p.FuncByName("pkg/arrai/relmod.normalizeStatement"); f != nil {
@@ -274,9 +275,15 @@ func checkC17(c *Check) {
 	var nt []*ssa.Function
 	for _, n := range []string{"pkg/arrai/relmod.normalizeType", "pkg/arrai/relmod.parseFieldType", "pkg/arrai/relmod.normalizeField"} {
 		if f := p.FuncByName(n); f != nil {
-			nt = append(nt, withClosures(f)...)
+			// with the helpers of the package it hands the type on to
+			for g := range repoReach(p, f) {
+				if fnPkgPath(g) == fnPkgPath(f) {
+					nt = append(nt, g)
+				}
+			}
 		}
 	}
+	sort.Slice(nt, func(i, j int) bool { return fnName(nt[i]) < fnName(nt[j]) })
 	if len(nt) > 0 {
 		tk := oneofKinds(p, "isType_Type")
 		cov := kindsCovered(nt, tk)
@@ -475,4 +482,163 @@ func c16RecordOnAllPaths(c *Check) {
 	if n == 0 {
 		c.Undecidedf("RECORD-ON-ALL-PATHS", "pkg/database", "-", "no column writer that records into a map[string]string parameter found: unresolved anchor")
 	}
+}
+
+// c17RowOnAllPaths: a normaliser that files a row for the construct it is given
+// (an append to a relation of the schema) does so on every path on which it
+// reports success. A `return nil` that leaves before the append accepts the model
+// and silently drops the construct from the relational image.
+func c17RowOnAllPaths(c *Check) {
+	p := c.P
+	n := 0
+	var fns []*ssa.Function
+	for _, f := range p.RepoFuncs() {
+		if fnPkgPath(f) == repoMod+"/pkg/arrai/relmod" && f.Parent() == nil && !strings.HasSuffix(p.fnFile(f), "_test.go") && len(f.Blocks) > 0 {
+			fns = append(fns, f)
+		}
+	}
+	sort.Slice(fns, func(i, j int) bool { return fnName(fns[i]) < fnName(fns[j]) })
+	for _, f := range fns {
+		ei := errorResultIndex(f.Signature)
+		if ei < 0 {
+			continue
+		}
+		directRow := func(i ssa.Instruction) bool {
+			st, ok := i.(*ssa.Store)
+			if !ok || appendCall(st.Val) == nil {
+				return false
+			}
+			own, _, _, ok := fieldOfAddr(st.Addr)
+			return ok && own != nil && own.Obj().Name() == "Schema"
+		}
+		// a loop that files a row per element counts at its header (no element, no
+		// row to file); a call of a function of the package that files rows counts too
+		loopHeads := map[ssa.Instruction]bool{}
+		eachInstr(f, func(b *ssa.BasicBlock, i ssa.Instruction) {
+			if !directRow(i) {
+				return
+			}
+			loop := enclosingLoop(b)
+			for lb := range loop {
+				for _, pr := range lb.Preds {
+					if !loop[pr] && len(lb.Instrs) > 0 {
+						loopHeads[lb.Instrs[0]] = true
+					}
+				}
+			}
+		})
+		isRow := func(i ssa.Instruction) bool {
+			if directRow(i) || loopHeads[i] {
+				return true
+			}
+			if cl, ok := i.(*ssa.Call); ok {
+				if h := cl.Call.StaticCallee(); h != nil && h != f && fnPkgPath(h) == fnPkgPath(f) && len(h.Blocks) > 0 {
+					files := false
+					for g := range repoReach(p, h) {
+						if g == f {
+							continue
+						}
+						eachInstr(g, func(_ *ssa.BasicBlock, j ssa.Instruction) {
+							if directRow(j) {
+								files = true
+							}
+						})
+					}
+					return files
+				}
+			}
+			return false
+		}
+		// rows filed directly in the entry region (not inside a loop over children)
+		var rows []ssa.Instruction
+		eachInstr(f, func(b *ssa.BasicBlock, i ssa.Instruction) {
+			if directRow(i) && len(enclosingLoop(b)) == 0 {
+				rows = append(rows, i)
+			}
+		})
+		if len(rows) == 0 {
+			continue
+		}
+		n++
+		isOKReturn := func(i ssa.Instruction) bool {
+			ret, ok := i.(*ssa.Return)
+			if !ok || ret.Block() == f.Recover {
+				return false
+			}
+			vals, cell := returnValues(ret)
+			return !cell[ei] && isNilConst(vals[ei])
+		}
+		entry := f.Blocks[0].Instrs[0]
+		nBad := 0
+		for _, b := range f.Blocks {
+			ret := b.Instrs[len(b.Instrs)-1]
+			if !isOKReturn(ret) {
+				continue
+			}
+			// is this particular return reachable from the entry without a row?
+			if _, bad := reachAvoiding(entry, func(i ssa.Instruction) bool { return i == ret }, isRow); !bad || isRow(entry) {
+				continue
+			}
+			nBad++
+			// name the return by the test that leads to it (the nearest dominating branch)
+			when := "unconditionally"
+			for d := b; d != nil; d = d.Idom() {
+				if id := d.Idom(); id != nil {
+					if iff, ok := id.Instrs[len(id.Instrs)-1].(*ssa.If); ok {
+						side := "false"
+						if id.Succs[0] == d || id.Succs[0].Dominates(d) {
+							side = "true"
+						}
+						when = "when " + condText(iff.Cond) + " is " + side
+						break
+					}
+				}
+			}
+			key := fmt.Sprintf("%s|success without a row %s", fnName(f), when)
+			c.Flagf("ROW-ON-ALL-PATHS", key, p.pos(ret.Pos()), "this success return is reachable without the append that files the construct's row (%s): the model is accepted and the construct is missing from the relational image", p.pos(rows[0].Pos()))
+		}
+		if nBad == 0 {
+			c.Okf("ROW-ON-ALL-PATHS", fmt.Sprintf("%s|a row is filed on every successful path", fnName(f)), p.pos(rows[0].Pos()), "every path to a nil-error return passes the append of the row")
+		}
+	}
+	c.Counts["row_filing_normalisers"] = n
+	if n < 3 {
+		c.Undecidedf("ROW-ON-ALL-PATHS", "pkg/arrai/relmod", "-", "expected several normalisers that append a row to the schema, found %d", n)
+	}
+}
+
+// condText: a short, name-stable description of a branch condition.
+func condText(v ssa.Value) string {
+	switch x := v.(type) {
+	case *ssa.BinOp:
+		return operandText(x.X) + " " + x.Op.String() + " " + operandText(x.Y)
+	case *ssa.UnOp:
+		return x.Op.String() + operandText(x.X)
+	}
+	return operandText(v)
+}
+
+func operandText(v ssa.Value) string {
+	v = unspill(v)
+	switch x := v.(type) {
+	case *ssa.Const:
+		if x.Value == nil {
+			return "nil"
+		}
+		return x.Value.ExactString()
+	case *ssa.Call:
+		if o := calleeObj(x); o != nil {
+			return o.Name() + "()"
+		}
+		return "call"
+	case *ssa.Extract:
+		return operandText(x.Tuple) + "#" + fmt.Sprint(x.Index)
+	}
+	if _, fld, _, ok := loadedField(v); ok {
+		return "." + fld
+	}
+	if isErrorType(v.Type()) {
+		return "err"
+	}
+	return "value"
 }
